@@ -664,14 +664,40 @@ async def e2e_scp(ctx, tmp):
         await listener.wait_closed()
 
 
+def _check_links(ctx, jail, base, ops):
+    """oracle: every symlink in the jail resolves inside the jail; raises StopIteration after reporting"""
+    for d, dn, fn in os.walk(jail):
+        for f in dn + fn:
+            lp = os.path.join(d, f)
+            if os.path.islink(lp):
+                rp_ = os.path.realpath(lp)
+                if not (rp_ == jail or rp_.startswith(jail + '/')):
+                    ctx.failing_input(
+                        f'chrooted SFTP server created symlink {lp[len(base):]!r} resolving to {rp_[len(base):]!r} '
+                        f'outside the root after requests {ops!r}',
+                        {'kind': 'e2e_symlink', 'ops': [[a.decode('latin-1'), b.decode('latin-1')] for a, b in ops],
+                         'link': lp[len(base):], 'resolves_to': rp_[len(base):],
+                         'after_dir_rename': b'rename dir ' in ops[-1][0]})
+                    raise StopIteration
+
+
 async def e2e_symlinks(ctx, tmp):
     """Sequences of mkdir/symlink requests against a real chrooted server; after every request every
     symlink inside the root must still resolve (physically) inside the root."""
     import asyncssh
     rng = ctx.rng
-    nseq = 150 if ctx.tier == 'thorough' else 40
+    nseq = 400 if ctx.tier == 'thorough' else 80
     made = 0
-    for k in range(nseq):
+    # corpus of minimised earlier failures, run first on every run
+    corpus = [
+        [('symlink', b'/..', b'/l0'), ('symlink', b'..', b'/l0/l1')],                          # C13-3
+        [('symlink', b'/', b'/a/b/l'), ('symlink', b'../../../etc', b'/a/b/l/x')],             # C13-3
+        [('symlink', b'../..', b'/a/b/up'), ('rename', b'/a/b/up', b'/up')],                   # C13-4
+        [('symlink', b'../..', b'/a/b/up'), ('posix_rename', b'/a/b/up', b'/up')],             # C13-4
+        [('symlink', b'../..', b'/a/b/c/l0'), ('posix_rename', b'/a/b/c', b'/m2')],            # C13-5 (known)
+    ]
+    for k in range(nseq + len(corpus)):
+        fixed = corpus[k] if k < len(corpus) else None
         base = os.path.join(tmp, 'sl%d' % k)
         jail = os.path.join(base, 'jail')
         os.makedirs(os.path.join(jail, 'a', 'b', 'c'))
@@ -686,8 +712,29 @@ async def e2e_symlinks(ctx, tmp):
             links = []          # client-visible paths of links created so far
             dirs = [b'/', b'/a', b'/a/b', b'/a/b/c']
             ops = []
-            for step in range(rng.randint(2, 5)):
-                newdir = rng.choice(dirs)
+            for step in range(len(fixed) if fixed else rng.randint(2, 5)):
+                if fixed:
+                    kind_, a_, b_ = fixed[step]
+                    if kind_ == 'symlink':
+                        ops.append((a_, b_))
+                        try:
+                            await sftp.symlink(a_, b_)
+                            links.append(b_)
+                            made += 1
+                        except (asyncssh.SFTPError, OSError):
+                            pass
+                    else:
+                        is_link = os.path.islink(os.path.join(jail, a_.decode().lstrip('/')))
+                        ops.append((kind_.encode() + (b' ' if is_link else b' dir ') + a_, b_))
+                        try:
+                            await getattr(sftp, kind_)(a_, b_)
+                            made += 1
+                        except (asyncssh.SFTPError, OSError):
+                            pass
+                    _check_links(ctx, jail, base, ops)
+                    continue
+                # new links are also created THROUGH earlier links (a link to a directory is a directory)
+                newdir = rng.choice(dirs + links + links)
                 name = b'l%d' % step
                 newpath = posixpath.join(newdir, name)
                 parts = []
@@ -700,28 +747,31 @@ async def e2e_symlinks(ctx, tmp):
                     else:
                         parts.append(rng.choice([b'a', b'b', b'c', b'.', b'a/b/c']))
                 target = b'/'.join(parts)
-                if rng.random() < 0.15:
-                    target = b'/' + target
-                ops.append((target, newpath))
-                try:
-                    await sftp.symlink(target, newpath)
-                    links.append(newpath)
-                    made += 1
-                except (asyncssh.SFTPError, OSError):
-                    continue
-                # oracle: every symlink in the jail resolves inside the jail
-                for d, dn, fn in os.walk(jail):
-                    for f in dn + fn:
-                        lp = os.path.join(d, f)
-                        if os.path.islink(lp):
-                            rp_ = os.path.realpath(lp)
-                            if not (rp_ == jail or rp_.startswith(jail + '/')):
-                                ctx.failing_input(
-                                    f'chrooted SFTP server created symlink {lp[len(base):]!r} resolving to {rp_[len(base):]!r} '
-                                    f'outside the root after requests {ops!r}',
-                                    {'kind': 'e2e_symlink', 'ops': [[a.decode('latin-1'), b.decode('latin-1')] for a, b in ops],
-                                     'link': lp[len(base):], 'resolves_to': rp_[len(base):]})
-                                raise StopIteration
+                if rng.random() < 0.25:
+                    target = rng.choice([b'/', b'/', b'/a', b'/' + target])
+                if links and rng.random() < 0.3:
+                    # move an existing link (or a directory holding one) somewhere else
+                    src = rng.choice(links + [posixpath.dirname(l) for l in links if posixpath.dirname(l) != b'/'])
+                    dstp = posixpath.join(rng.choice([b'/', b'/a', b'/a/b']), b'm%d' % step)
+                    ren = rng.choice(['rename', 'posix_rename'])
+                    src_is_link = os.path.islink(os.path.join(jail, src.decode().lstrip('/')))
+                    ops.append((ren.encode() + (b' ' if src_is_link else b' dir ') + src, dstp))
+                    try:
+                        await getattr(sftp, ren)(src, dstp)
+                        links = [dstp if l == src else (dstp + l[len(src):] if l.startswith(src + b'/') else l) for l in links]
+                        dirs = [dstp if d_ == src else (dstp + d_[len(src):] if d_.startswith(src + b'/') else d_) for d_ in dirs]
+                        made += 1
+                    except (asyncssh.SFTPError, OSError):
+                        continue
+                else:
+                    ops.append((target, newpath))
+                    try:
+                        await sftp.symlink(target, newpath)
+                        links.append(newpath)
+                        made += 1
+                    except (asyncssh.SFTPError, OSError):
+                        continue
+                _check_links(ctx, jail, base, ops)
             ctx.note_case(('symlinks', tuple(ops)), nontrivial=len(ops) >= 2)
         except StopIteration:
             pass
